@@ -2,8 +2,10 @@ package main
 
 import (
 	"fmt"
+	"go/constant"
 	"go/token"
 	"go/types"
+	"regexp"
 	"strings"
 
 	"golang.org/x/tools/go/ssa"
@@ -901,4 +903,520 @@ func keepsPrefix(c *Ctx, v ssa.Value, isBase func(ssa.Value) bool, d int, busy m
 		}
 		return n > 0
 	})
+}
+
+// rulePSKPremasterLayout (C03, C07): "for PSK suites, knowledge of the pre-shared key": the
+// premaster secret of the ECDHE_PSK key exchange is, byte for byte, RFC 5489 2:
+// uint16(len(Z)) || Z || uint16(len(psk)) || psk - in particular the pre-shared key is part of
+// what is returned. Decided by the layout extractor on the value the function returns on success.
+func rulePSKPremasterLayout(c *Ctx, r *Report) {
+	const rule = "psk-premaster-layout"
+	fn := c.need(r, rule, pkgPRF+".EcdhePSKPreMasterSecret")
+	if fn == nil {
+		return
+	}
+	r.Sites += len(fn.Blocks)
+	v, ret := singleReturn(fn, 0)
+	if v == nil {
+		r.Unk(rule, short(fn), c.pos(fn.Pos()), "no unique returned value")
+		return
+	}
+	l, err := c.LayoutOf(v, ret, 0)
+	g := ""
+	if err == nil {
+		g = layoutString(l)
+	}
+	if err != nil || strings.HasPrefix(g, "make(") {
+		// a buffer of computed size that is filled at running offsets: the layout is out of reach
+		// of the extractor; what is decided then is the weaker, necessary condition that the
+		// pre-shared key (and the ECDH result) are copied or appended into what is returned
+		var psk *ssa.Parameter
+		for _, p := range fn.Params {
+			if p.Name() == "psk" {
+				psk = p
+			}
+		}
+		var z ssa.Value
+		for _, cl := range findCalls(fn, nameHasSuffix("prf.PreMasterSecret")) {
+			z = resultValue(cl, 0)
+		}
+		okFlow := psk != nil && z != nil && flowsInto(c, fn, v, psk, 0) && flowsInto(c, fn, v, z, 0)
+		r.Check(okFlow, rule, short(fn), c.ipos(ret), "the pre-shared key and the ECDH result are both copied into the returned premaster secret (byte layout not extractable: filled at running offsets)", "the ECDHE_PSK premaster secret that is returned does not contain the pre-shared key (or the ECDH result): the session keys then depend on the public exchange alone, and a peer that does not know the key completes the handshake")
+		return
+	}
+	// Z is whatever the ECDH helper returned (a local), the key is the parameter
+	okShape := pskPremasterRe.MatchString(g)
+	r.Check(okShape, rule, short(fn), c.ipos(ret), "premaster = len(Z) || Z || len(psk) || psk: "+g, "the ECDHE_PSK premaster secret deviates from RFC 5489 2 (uint16 length of the ECDH result, the result, uint16 length of the pre-shared key, the key): got ["+g+"]. If the key is not part of it, the session keys depend on the public ECDH exchange alone, and a peer that does not know the key completes the handshake")
+}
+
+var pskPremasterRe = regexp.MustCompile(`^builtin:len\((\S+)\)\[1\.\.0\] (\S+)\[\*\] builtin:len\(psk\)\[1\.\.0\] psk\[\*\]$`)
+
+// flowsInto: the bytes of src are part of the byte slice dst as the function leaves it: dst is (a
+// slice of) an append chain one of whose operands is src - also through a module helper that
+// returns such a chain of its parameters - or a buffer into which src is copied.
+func flowsInto(c *Ctx, fn *ssa.Function, dst, src ssa.Value, d int) bool {
+	if d > 6 {
+		return false
+	}
+	dst = unspill(dst)
+	if dst == src {
+		return true
+	}
+	switch x := dst.(type) {
+	case *ssa.Slice:
+		return flowsInto(c, fn, x.X, src, d+1)
+	case *ssa.Phi:
+		for _, e := range x.Edges {
+			if e != ssa.Value(x) && flowsInto(c, fn, e, src, d+1) {
+				return true
+			}
+		}
+	case *ssa.Extract:
+		if cl, ok := x.Tuple.(*ssa.Call); ok {
+			return flowsInto(c, fn, cl, src, d+1)
+		}
+	case *ssa.MakeSlice, *ssa.Alloc:
+		for _, b := range fn.Blocks {
+			for _, in := range b.Instrs {
+				cp, ok := in.(*ssa.Call)
+				if !ok || calleeName(&cp.Call) != "builtin:copy" {
+					continue
+				}
+				root := cp.Call.Args[0]
+				for i := 0; i < 4; i++ {
+					if sl, isSl := root.(*ssa.Slice); isSl {
+						root = sl.X
+					}
+				}
+				if root == dst && (cp.Call.Args[1] == src || flowsInto(c, fn, cp.Call.Args[1], src, d+1)) {
+					return true
+				}
+			}
+		}
+	case *ssa.Call:
+		name := calleeName(&x.Call)
+		if name == "builtin:append" || strings.HasPrefix(name, "(encoding/binary.bigEndian).Append") || name == "bytes.Clone" || strings.HasPrefix(name, "slices.Concat[") {
+			for _, a := range x.Call.Args {
+				if flowsInto(c, fn, a, src, d+1) {
+					return true
+				}
+			}
+			return false
+		}
+		g := x.Call.StaticCallee()
+		if g == nil || !inModule(g) || len(g.Blocks) == 0 {
+			return false
+		}
+		// which parameters of the helper end up in what it returns
+		for i, a := range x.Call.Args {
+			if i >= len(g.Params) || !flowsInto(c, fn, a, src, d+1) {
+				continue
+			}
+			for _, gb := range g.Blocks {
+				if gret, ok := gb.Instrs[len(gb.Instrs)-1].(*ssa.Return); ok && len(gret.Results) > 0 {
+					if flowsInto(c, g, gret.Results[0], g.Params[i], d+1) {
+						return true
+					}
+				}
+			}
+		}
+	}
+	return false
+}
+
+// ruleCBCMacHashMatchesSuite (C10, C05): "CBC MAC-then-encrypt": the MAC of a CBC suite is the
+// HMAC its name says - HMAC-SHA1 for ..._CBC_SHA, HMAC-SHA256 for ..._CBC_SHA256, HMAC-SHA384 for
+// ..._CBC_SHA384 (RFC 5246 A.5; it is not the PRF hash, which is SHA-256 for the _SHA suites too).
+// In every Init of a cipher suite type that builds the CBC record protection, the hash
+// constructor handed over is the New of the package the suite's own name ends in.
+func ruleCBCMacHashMatchesSuite(c *Ctx, r *Report) {
+	const rule = "cbc-mac-hash-matches-suite"
+	n := 0
+	for _, s := range c.CallsTo(nameHasSuffix("pkg/crypto/ciphersuite.NewCBC")) {
+		call, ok := s.Call.(*ssa.Call)
+		fn := s.Fn
+		if !ok || fn.Signature.Recv() == nil || len(call.Call.Args) == 0 {
+			continue
+		}
+		n++
+		r.Sites++
+		// the suite's name: the constant its String method returns
+		recvT := derefType(fn.Signature.Recv().Type())
+		name := ""
+		for _, g := range c.Fns {
+			if g.Name() != "String" || g.Signature.Recv() == nil || !types.Identical(derefType(g.Signature.Recv().Type()), recvT) {
+				continue
+			}
+			for _, b := range g.Blocks {
+				if ret, isRet := b.Instrs[len(b.Instrs)-1].(*ssa.Return); isRet && len(ret.Results) == 1 {
+					if str, isS := constString(ret.Results[0]); isS {
+						name = str
+					}
+				}
+			}
+		}
+		want := ""
+		name = strings.ReplaceAll(name, "-", "_")
+		switch {
+		case strings.HasSuffix(name, "_CBC_SHA"):
+			want = "crypto/sha1.New"
+		case strings.HasSuffix(name, "_CBC_SHA256"):
+			want = "crypto/sha256.New"
+		case strings.HasSuffix(name, "_CBC_SHA384"):
+			want = "crypto/sha512.New384"
+		}
+		key := fmt.Sprintf("%s:mac#%d", short(fn), n)
+		if want == "" {
+			r.Unk(rule, key, c.ipos(call), "the suite's name ("+name+") does not say which MAC it uses")
+			continue
+		}
+		got := "?"
+		if f := funcDenoted(call.Call.Args[len(call.Call.Args)-1], 0); f != nil {
+			got = rawShort(f)
+		}
+		r.Check(got == want, rule, key, c.ipos(call), name+" MACs with "+want, "the record MAC of "+name+" is built with "+got+" instead of "+want+": the tag has another length and value than RFC 5246 prescribes for this suite, so no conforming peer can read or write its records (both ends of this library still agree)")
+	}
+	r.Floor(rule, n, 4)
+}
+
+// ruleListenerBufferFitsConn (C08): "cannot wedge": the listener reads datagrams into a buffer of
+// its own and hands them on through the per-connection packet ring; the connection takes them
+// out with a buffer of a fixed size, and the ring refuses - without dropping - a datagram that
+// does not fit the buffer it is read into. The listener's read size is therefore at most the
+// connection's: a larger datagram would stay at the head of the ring for ever.
+func ruleListenerBufferFitsConn(c *Ctx, r *Report) {
+	const rule = "listener-buffer-fits-conn-buffer"
+	constOf := func(pkg, name string) (int64, bool) {
+		for path, p := range c.TPkgs {
+			if shortPath(path) != pkg || p.Types == nil {
+				continue
+			}
+			if k, ok := p.Types.Scope().Lookup(name).(*types.Const); ok {
+				if v, okV := constant64(k); okV {
+					return v, true
+				}
+			}
+		}
+		return 0, false
+	}
+	lst, ok1 := constOf("internal/net/udp", "receiveMTU")
+	conn, ok2 := constOf("dtls", "inboundBufferSize")
+	if !ok1 || !ok2 {
+		r.Unk(rule, "constants", "", "the listener's receive size (internal/net/udp.receiveMTU) or the connection's (dtls.inboundBufferSize) was not found")
+		return
+	}
+	r.Sites += 2
+	r.Check(lst <= conn, rule, "receiveMTU<=inboundBufferSize", "", fmt.Sprintf("the listener reads at most %d bytes per datagram, the connection's buffer holds %d", lst, conn), fmt.Sprintf("the listener accepts datagrams of up to %d bytes but a connection reads them from its packet ring with a buffer of %d: the ring answers a longer datagram with io.ErrShortBuffer and keeps it at its head, so one oversized datagram from anybody makes every later Read fail and nothing the peer sends is delivered any more", lst, conn))
+}
+
+// ruleSessionIDNotClearedByCleanup (C14): "a fatal alert deletes the session": the connection
+// deletes the session it was resuming when it sends a fatal alert, and it finds that session by
+// the handshake state's SessionID - after the parser that failed has returned. Nothing that runs
+// on a parser's way out (a deferred clean-up) therefore clears the SessionID: every store to it
+// sits in a named function of the flight or state packages, never in a function literal.
+func ruleSessionIDNotClearedByCleanup(c *Ctx, r *Report) {
+	const rule = "session-id-not-cleared-by-cleanup"
+	n := 0
+	for _, st := range c.StoresTo(tCom, "SessionID") {
+		n++
+		r.Sites++
+		fn := st.Fn
+		r.Check(fn.Parent() == nil, rule, short(fn), c.ipos(st.Instr), "the session ID is written by the parser itself", "the session ID is written by a function literal ("+short(fn)+", a deferred clean-up of its parser): when the parser fails, the ID is gone before the connection sends the fatal alert, the session it was resuming is not deleted from the store and is offered again")
+	}
+	r.Floor(rule, n, 4)
+}
+
+func constant64(k *types.Const) (int64, bool) {
+	if k == nil || k.Val() == nil || k.Val().Kind() != constant.Int {
+		return 0, false
+	}
+	return constant.Int64Val(k.Val())
+}
+
+// ruleSendCounterSerialised (C09): the send counter an exported connection hands to the resumed
+// one travels through the serialised form as it is: serialize reads it, deserialize writes it
+// unchanged (not clamped: the counter is the next number to use, and an exhausted epoch must
+// stay exhausted). These are the obligations of state-coverage (C19) that name the send counter,
+// claimed here for the no-reuse property.
+func ruleSendCounterSerialised(c *Ctx, r *Report) {
+	const rule = "send-counter-serialised"
+	tmp := newReport(r.Prop)
+	ruleStateCoverage(c, tmp)
+	n := 0
+	for _, o := range tmp.Obls {
+		lc := strings.ToLower(o.Construct)
+		if !strings.Contains(lc, "sequencenumber") || strings.Contains(lc, "remotesequencenumber") || !strings.Contains(o.Construct, "serialize") {
+			continue
+		}
+		n++
+		o.Rule = rule
+		r.add(o)
+	}
+	r.Sites += tmp.Sites
+	r.Floor(rule, n, 2)
+}
+
+// ruleCBCAcceptsEmptyRecord (C01, C10): "application data then flows in both directions": a
+// record whose plaintext is empty is legal (RFC 5246 6.2.1) and Write([]byte{}) sends one. In the
+// CBC record decryption, with the computed length of the data (the bound at which the body is
+// cut into data and MAC) equal to zero, a successful return is still reachable: the comparisons
+// of that length with zero refuse negative values only.
+func ruleCBCAcceptsEmptyRecord(c *Ctx, r *Report) {
+	const rule = "cbc-accepts-empty-record"
+	fn := c.need(r, rule, "(*"+pkgCS+".CBC).Decrypt")
+	if fn == nil {
+		return
+	}
+	r.Sites += len(fn.Blocks)
+	// the data length: an integer that is the upper bound of a slice of the record body and is
+	// compared with zero
+	cut := map[ssa.Value]bool{}
+	for _, b := range fn.Blocks {
+		for _, in := range b.Instrs {
+			if sl, ok := in.(*ssa.Slice); ok && sl.High != nil && sl.Low == nil {
+				cut[sl.High] = true
+			}
+		}
+	}
+	matched := 0
+	atZero := func(v ssa.Value) (Val, bool) {
+		bo, ok := v.(*ssa.BinOp)
+		if !ok || !cut[bo.X] {
+			return unknown, false
+		}
+		if k, isK := constInt(bo.Y); !isK || k != 0 {
+			return unknown, false
+		}
+		switch bo.Op { // with the length equal to zero
+		case token.LSS, token.GTR, token.NEQ:
+			return vBool(false), true
+		case token.LEQ, token.GEQ, token.EQL:
+			return vBool(true), true
+		}
+		return unknown, false
+	}
+	okRet := true
+	for _, b := range fn.Blocks {
+		for _, in := range b.Instrs {
+			bo, isBo := in.(*ssa.BinOp)
+			if !isBo {
+				continue
+			}
+			if _, is := atZero(bo); !is {
+				continue
+			}
+			matched++
+			// from this comparison on (earlier exits - a record that is not protected - do not count)
+			w := (&Walk{Fn: fn, Assume: atZero}).After(bo)
+			reach := false
+			for _, ro := range w.Returns {
+				if n := len(ro.Ret.Results); n == 2 && isNilConst(unspill(ro.Ret.Results[1])) && !isNilConst(unspill(ro.Ret.Results[0])) {
+					reach = true
+				}
+			}
+			if !reach {
+				okRet = false
+			}
+		}
+	}
+	if matched == 0 {
+		r.Unk(rule, short(fn), c.pos(fn.Pos()), "no comparison of the data length (the bound the body is cut at) with zero was found")
+		return
+	}
+	r.Check(okRet, rule, short(fn), c.pos(fn.Pos()), "a record with an empty plaintext is decrypted like any other", "the CBC decryption refuses a record whose plaintext is empty (the data length is compared with zero too strictly): empty application datagrams, which RFC 5246 6.2.1 allows and Write([]byte{}) sends, vanish on every CBC suite in both directions")
+}
+
+// ruleSharedSecretsNotWipedInPlace (C07): the byte slices that hold the master secret, the
+// exporter master secret and the application traffic secrets are shared, not copied: the traffic
+// generations alias the key schedule's secrets, every State handed out by ConnectionState aliases
+// the connection's master secret, the session store is handed the same slice. Zero-filling one
+// of them in place (clear(x), or a loop of element stores) therefore zeroes the copies that are
+// still in use - the next key update derives from an all-zero secret, an exporter call after
+// Close returns a value anybody can compute. No clear() and no element store is applied to a
+// slice loaded from one of these fields.
+func ruleSharedSecretsNotWipedInPlace(c *Ctx, r *Report) {
+	const rule = "shared-secrets-not-wiped-in-place"
+	shared := map[string]bool{
+		"MasterSecret": true, "ExporterMasterSecret": true, "ResumptionMasterSecret": true,
+		"ClientApplicationTrafficSecret0": true, "ServerApplicationTrafficSecret0": true,
+		"Secret": true, "masterSecret": true, "exporterMasterSecret": true,
+	}
+	isShared := func(v ssa.Value) (string, bool) {
+		for _, l := range append(c.Origins(v, 0), v) {
+			if o, f, _, ok := fieldLoad(l); ok && shared[f] && (strings.Contains(o, "state.") || strings.HasPrefix(o, "dtls.State")) {
+				return o + "." + f, true
+			}
+			// through a pointer to the field (a list of &state.X that is walked)
+			if u, isU := l.(*ssa.UnOp); isU && u.Op == token.MUL {
+				ptrs := append(c.Origins(u.X, 0), u.X)
+				// the pointer is an element of a local list: every pointer stored into the list
+				if pl, isL := u.X.(*ssa.UnOp); isL && pl.Op == token.MUL {
+					if ia, isIA := pl.X.(*ssa.IndexAddr); isIA {
+						base := ia.X
+						if sl, isSl := base.(*ssa.Slice); isSl {
+							base = sl.X
+						}
+						if al, isAl := base.(*ssa.Alloc); isAl {
+							for _, ref := range *al.Referrers() {
+								if ia2, ok2 := ref.(*ssa.IndexAddr); ok2 {
+									for _, r2 := range *ia2.Referrers() {
+										if st, isSt := r2.(*ssa.Store); isSt && st.Addr == ssa.Value(ia2) {
+											ptrs = append(ptrs, st.Val)
+										}
+									}
+								}
+							}
+						}
+					}
+				}
+				for _, l2 := range ptrs {
+					if o, f, _, ok := fieldOfAddr(l2); ok && shared[f] && (strings.Contains(o, "state.") || strings.HasPrefix(o, "dtls.State")) {
+						return o + "." + f, true
+					}
+				}
+			}
+		}
+		return "", false
+	}
+	n := 0
+	for _, fn := range c.Fns {
+		if len(fn.Blocks) == 0 {
+			continue
+		}
+		for _, b := range fn.Blocks {
+			for _, in := range b.Instrs {
+				switch x := in.(type) {
+				case *ssa.Call:
+					if calleeName(&x.Call) != "builtin:clear" || len(x.Call.Args) != 1 {
+						continue
+					}
+					n++
+					r.Sites++
+					what, bad := isShared(x.Call.Args[0])
+					r.Check(!bad, rule, fmt.Sprintf("%s:clear#%d", short(fn), n), c.ipos(x), "clear() is not applied to a shared secret", "the shared secret "+what+" is zero-filled in place: the traffic generations, exported States or session store entries that alias the same bytes now hold zeroes - keys derived from them afterwards (a key update, an exporter call) are computable by anybody")
+				case *ssa.Store:
+					ia, ok := x.Addr.(*ssa.IndexAddr)
+					if !ok {
+						continue
+					}
+					if what, bad := isShared(ia.X); bad {
+						n++
+						r.Bad(rule, fmt.Sprintf("%s:element-store#%d", short(fn), n), c.ipos(x), "an element of the shared secret "+what+" is overwritten in place")
+					}
+				}
+			}
+		}
+	}
+	r.Note(rule, "sites", "", fmt.Sprintf("%d clear() calls / element stores examined", n))
+}
+
+// ruleAckNamesTheRecord (C20, C02): "UpdateKeys returns success only after the peer acknowledged
+// the update": an ACK names records by (epoch, sequence number), and the sender matches those
+// against the records of its flights. What the receiver queues for acknowledgement is the number
+// of the record it received: epoch and sequence number both come from that record's header, not
+// from connection state (the read epoch moves on with a key update, and a retransmission of the
+// previous epoch would be acknowledged under the number of a record of the next one).
+func ruleAckNamesTheRecord(c *Ctx, r *Report) {
+	const rule = "ack-names-the-record"
+	n := 0
+	for _, st := range c.StoresTo("dtls.Conn", "pendingACKs") {
+		fn := st.Fn
+		for _, al := range allocsOf(fn, "pkg/protocol.RecordNumber") {
+			f := litFields(al)
+			ev, sv := f["Epoch"], f["SequenceNumber"]
+			if ev == nil || sv == nil {
+				continue
+			}
+			n++
+			r.Sites++
+			hdr := func(v ssa.Value, field string) (ssa.Value, bool) {
+				for _, l := range c.Origins(v, 0) {
+					o, fl, base, ok := fieldLoad(l)
+					if !ok || fl != field || !strings.HasSuffix(o, "recordlayer.Header") {
+						return nil, false
+					}
+					return rootValueDeep(base), true
+				}
+				return nil, false
+			}
+			be, okE := hdr(ev, "Epoch")
+			bs, okS := hdr(sv, "SequenceNumber")
+			good := okE && okS && be == bs
+			r.Check(good, rule, fmt.Sprintf("%s:record-number#%d", short(fn), n), c.ipos(al), "the acknowledged number is (header.Epoch, header.SequenceNumber) of the received record", "a record is queued for acknowledgement under a number that is not its own header's (epoch from "+shapeOf(ev, 0)+", sequence number from "+shapeOf(sv, 0)+"): after the read epoch has moved on, an old retransmission is acknowledged as a record of the new epoch, the peer takes that for the acknowledgement of a flight that was lost, and its UpdateKeys returns success although the update never arrived")
+		}
+	}
+	r.Floor(rule, n, 1)
+}
+
+// ruleFlightDeliveredOnlyWhenNothingPending (C02): a DTLS 1.3 flight stops being retransmitted
+// when the peer has acknowledged all of it - not when one ACK happens to cover only complete
+// messages. In the function that decides the transition after an ACK, with the set of pending
+// (unacknowledged) fragments of the flight not empty, the retransmission flag is not cleared and
+// the machine does not leave for the finished state: a lost datagram of a fragmented flight would
+// otherwise never be sent again, and the endpoint that sent it reports success alone.
+func ruleFlightDeliveredOnlyWhenNothingPending(c *Ctx, r *Report) {
+	const rule = "flight-delivered-only-when-nothing-pending"
+	fn := c.need(r, rule, "(*"+pkgHS+".fsm13).transitionAfterACK")
+	if fn == nil {
+		return
+	}
+	r.Sites += len(fn.Blocks)
+	states := c.enumConsts(pkgHS, "State")
+	matched := 0
+	isPendingLen := func(v ssa.Value) bool {
+		cl, ok := stripConv(v).(*ssa.Call)
+		if !ok || calleeName(&cl.Call) != "builtin:len" {
+			return false
+		}
+		_, f, _, okF := fieldLoad(cl.Call.Args[0])
+		return okF && f == "pending"
+	}
+	w := &Walk{Fn: fn, Follow: followSamePkg(fn), Assume: func(v ssa.Value) (Val, bool) {
+		bo, ok := v.(*ssa.BinOp)
+		if !ok || !isPendingLen(bo.X) {
+			return unknown, false
+		}
+		if k, isK := constInt(bo.Y); !isK || k != 0 {
+			return unknown, false
+		}
+		matched++
+		switch bo.Op { // something is still pending
+		case token.EQL, token.LEQ:
+			return vBool(false), true
+		case token.NEQ, token.GTR:
+			return vBool(true), true
+		}
+		matched--
+		return unknown, false
+	}}
+	cleared := ""
+	w.Visit = func(in ssa.Instruction, _ Env) bool {
+		if st, ok := in.(*ssa.Store); ok {
+			if _, f, _, okF := fieldOfAddr(st.Addr); okF && f == "retransmit" {
+				if k, isK := constBool(st.Val); isK && !k {
+					cleared = c.ipos(st)
+				}
+			}
+		}
+		return true
+	}
+	w.FromEntry()
+	finished := ""
+	for _, ro := range w.Returns {
+		if v := fieldOfReturnedStruct(ro.Ret, 0, "state"); v != nil {
+			if k, isK := constInt(v); isK && k == states["StateFinished"] {
+				finished = c.ipos(ro.Ret)
+			}
+		}
+	}
+	bad := ""
+	switch {
+	case matched == 0:
+		bad = "the decision never looks at what is still pending of the flight"
+	case cleared != "":
+		bad = "the retransmission flag is cleared at " + cleared + " while fragments of the flight are still unacknowledged"
+	case finished != "":
+		bad = "the machine leaves for the finished state at " + finished + " while fragments of the flight are still unacknowledged"
+	}
+	r.Check(bad == "" && !w.overflow, rule, short(fn), c.pos(fn.Pos()), "with fragments of the flight still pending the flight stays under retransmission", "an acknowledgement that covers only part of the flight ends its retransmission: "+bad+": after one lost datagram of a fragmented flight the sender reports a completed handshake and never sends the missing part again, and the peer never completes")
 }
